@@ -146,7 +146,8 @@ PROPS['C14'].update({
     'technique': 'Verus contracts on the extracted polytope operations of src/linalg/affine.rs against the real-arithmetic ndarray shim (membership equivalences for all x) + bounded replay (bc poly)',
     'level_text': ('Mixed. PROVED modulo "f64 = reals" (Verus, all polytopes, all points, all dimensions): unbounded, empty, hypercube, hyperrectangle, axis_bounds / place_axis_bounds (incl. infinite bounds), '
                    'distance_raw == b - M x, contains (true iff every un-normalised row holds up to 1e-8: b_i - m_i.x >= -1e-8; rule I5 helper all_ge_lit for the `.into_iter().all(..)` closure), translate (x in result <=> x - d in P), intersection (<=> in both), apply_pre (<=> f(x) in P), apply_post (<=> inverse (y - bias) in P), rotate (<=> R^T y in P). '
-                   'BOUNDED only (bc poly): intersection_n, cross_polytope, from_normal, simplex, distance (norms).'),
+                   'intersection_n ON ITS REAL BODY (rules I6: the two `polys.iter().map(|p| p.mat.view() / p.bias.view()).collect()` pipelines are the trusted helpers mat_views / bias_views; `ndarray::concatenate(Axis(0), slice)` is the ASSUMED library contract nd_concatenate1/2: Err iff the list is empty or column counts differ, otherwise the operands\' rows in order): given parts of dimension dim its two "mismatch in dimensions" panics are unreachable, the result has the rows of the parts in order (one unbounded row for the empty list), x in result <=> x in every part, and a point the result tolerates (contains) is tolerated by every part (prelude/cat_spec.rs: one induction for every row predicate). '
+                   'BOUNDED only (bc poly): cross_polytope, from_normal, simplex, distance (norms).'),
     'design_ref': 'DESIGN.md §4 C14',
     'assumptions': ASSUME_COMMON + ASSUME_ND + ASSUME_BC,
 })
@@ -257,14 +258,14 @@ _ELIM_TEXT = ('infeasible_elimination, FOR EVERY ANSWER of the LP solver, the to
               'such that every input whose evaluation in the ORIGINAL tree passes no blamed node keeps its value and its undefinedness: tree_fn(after, x) == tree_fn(before, x) '
               '(per step: forward_if_redundant changes the function at most for inputs that reach the decision and leave it through a child cached infeasible - lemma_fwd_sem; a deferred removal at most for inputs taking the removed branch; state writes not at all). '
               'REGION LINK (same unit): the polytope recorded for a blamed node c is satisfied by EVERY input whose evaluation in the original tree passes c (region_covers): PolyhedraGen\'s bookkeeping invariant gen_inv of unit pwl_regions is carried through the run with respect to the ORIGINAL arena, '
-              'because the traversal only reads nodes the mutations have not touched (reg_inv: unvisited nodes keep their child slots, waiting nodes keep their parent pointer and parent slot; splices only re-hang visited nodes), and intersection_n is the conjunction of the reported half-spaces (assumed contract of the closure pipeline). '
+              'because the traversal only reads nodes the mutations have not touched (reg_inv: unvisited nodes keep their child slots, waiting nodes keep their parent pointer and parent slot; splices only re-hang visited nodes), and intersection_n is the conjunction of the reported half-spaces (contract proved in unit aff_algebra). '
               'Consequently: if every Infeasible LP answer is right (the polytope has no point) and no input reaches a node cached infeasible at entry, then NO input is blamed and tree_fn(after, x) == tree_fn(before, x) for every x - C03 for infeasible_elimination reduced to LP soundness (C10). ')
 _ELIM_ASSUME = [
     'unit pwl_elim: verified for K = 2 (rule G1: infeasible_elimination of `impl<const K: usize> AffTree<K>` is placed in `impl AffTree<2>`; PolyhedraGen::next panics on labels >= 2), aff_shape_ok, arena of at most i32::MAX nodes, input tree well-formed with aff shapes of the tree dimension, non-empty cached witness lists (vals_ok) and one-row decisions (dec_one_row); '
     'rule N3: `while let Some((data, polyhedra)) = iter.next(&self.tree)` is read as `while let Some(data) = iter.next(&self.tree)` + `let polyhedra = iter.current_polytope()` (PolyhedraGen::next is verified with the pair result replaced by the node data; current_polytope returns the same vector); '
     'the PerformanceCounter increments are dropped (rule D7) except that `self.tree.num_nodes(node_idx) - 1` is kept as a statement (num_nodes: iterator pipeline, trusted "requires the node, returns >= 1"); `for (label, node) in to_remove` is the index loop; node_value(i) is read as tree_node(i).value (rule N2); '
     'phase_one (repair heuristic around mirror_points, numeric code) is an ORACLE returning Indeterminate or a non-empty witness list (mirror_points returns Some only with at least one column), its shape assertion (cached witnesses have the polytope dimension) is ASSUMED; '
-    'Polytope::intersection_n (closure pipeline + ndarray::concatenate) is trusted with the precondition "all parts have the given dimension" derived from its panic and the ASSUMED postcondition "a point satisfies the result iff it satisfies every part" (bounded: bc poly); phase_inh / phase_two / forward_if_redundant / DfsPre::next / skip_subtree / try_remove_child are used through the contracts proved in units pwl_feasible / pwl_forward / tree_iter / tree_graph; '
+    'Polytope::intersection_n is used through the contract PROVED on its real body in unit aff_algebra (precondition "all parts have the given dimension" = its two panics are unreachable; result = rows of the parts in order, hence the conjunction of the parts; trusted there: ndarray::concatenate and the two `.iter().map(view).collect()` pipelines as helper contracts); phase_inh / phase_two / forward_if_redundant / DfsPre::next / skip_subtree / try_remove_child are used through the contracts proved in units pwl_feasible / pwl_forward / tree_iter / tree_graph; '
     'PolyhedraGen::next is re-verified here (K = 2, pair result replaced by the node data, ghost arguments in_dim / original arena a0 / recorded path) under a contract that does not need the tree to be unchanged since the previous call: structural step, shapes of the half-spaces, at least one half-space below the root, and gen_inv with respect to a0 given top_agrees for the entry about to be popped',
 ]
 PROPS['C04'].update({
@@ -337,7 +338,7 @@ NOT_APPLICABLE = {
 # the decision logic around the LP solver is under contract since unit pwl_feasible (the LP layer, the tolerance test and the repair heuristic stay oracles)
 _FEAS_ASSUME = [
     'unit pwl_feasible: Polytope::status (LP solver, C10), Polytope::contains (tolerance membership) and AffTree::mirror_points (numeric repair) are ORACLES: external_body with uninterpreted results (lp_status, contains_tol; mirror_points: any answer); '
-    'is_edge_feasible and polyhedral_path_characterization are verified on their real bodies for K = 2 and aff_shape_ok trees (the latter panics on labels >= 2: pruning exists for binary trees only): rule S4: the RefCell scratch buffer is a local Vec; `for (idx, label) in path` is the index loop; float literals / `&m * factor` as in PolyhedraGen::next; Polytope::intersection_n trusted: parts of the given dimension required, result = conjunction of the parts ASSUMED (bounded: bc poly)',
+    'is_edge_feasible and polyhedral_path_characterization are verified on their real bodies for K = 2 and aff_shape_ok trees (the latter panics on labels >= 2: pruning exists for binary trees only): rule S4: the RefCell scratch buffer is a local Vec; `for (idx, label) in path` is the index loop; float literals / `&m * factor` as in PolyhedraGen::next; Polytope::intersection_n through the contract proved in unit aff_algebra (parts of the given dimension required, result = conjunction of the parts)',
     'rule D7: the PerformanceCounter increments (`counter.x += 1`, statistics only) are dropped from phase_inh / phase_two; rule I15 / I16: `solution.iter().filter(|p| hyperplane.contains(p)).map(..).collect_vec()` and `wit.iter().any(|p| poly.contains(p))` are the verified helpers filter_contained / any_contained; `solution.clone().insert_axis(Axis(1))` and `val.t().row(0).to_owned()` are spec-less trusted helpers (their results are re-checked with contains before use); `node_value(i)` is read as tree_node(i).value (rule N2)',
 ]
 _FEAS_TEXT = ('PROVED on the real branching of is_edge_feasible / phase_two / phase_inh (unit pwl_feasible; LP solver, tolerance test and repair heuristic as arbitrary oracles): an edge or node is declared infeasible ONLY on an Infeasible verdict '
@@ -347,7 +348,7 @@ _FEAS_TEXT = ('PROVED on the real branching of is_edge_feasible / phase_two / ph
               '(edge_covers: path_to_node gives the (node, label) steps from the root, each contributes the half-space of its edge, an input passing the node leaves every decision of the path through the recorded label - lemma_reaches_routed). ')
 _WIT_ASSUME = [
     'C05 tree level (unit pwl_elim, prelude/wit_spec.rs): ENTRY HYPOTHESIS wit_inv(old, old) - every witness cached in the tree handed to infeasible_elimination satisfies, up to 1e-8, every half-space of its path (the constructors create no witnesses; that the other operations keep this is bounded: bc prune / histories); '
-    'ASSUMED contracts: phase_one returns only points that pass the tolerance test of the polytope it was asked for (mirror_points tests the normalised rows with margin 1e-10, `contains` re-checks only in debug builds; bounded: bc mirror); intersection_n: a point tolerated by the result is tolerated by every part (rows are concatenated; bounded: bc poly); '
+    'ASSUMED contracts: phase_one returns only points that pass the tolerance test of the polytope it was asked for (mirror_points tests the normalised rows with margin 1e-10, `contains` re-checks only in debug builds; bounded: bc mirror); (intersection_n: "a point tolerated by the result is tolerated by every part" is part of the contract proved in unit aff_algebra); '
     'Polytope::contains is used through the contract PROVED in unit aff_algebra (r == every un-normalised row within 1e-8, exact-real reading of f64) - its shape precondition (witness dimension == polytope dimension, otherwise ndarray panics) is ASSUMED at the call sites in phase_inh / phase_two; rule I5: `.into_iter().all(|x| x >= A::from(-1e-8).unwrap())` is the trusted helper all_ge_lit(array, -1, 100000000); '
     'units pwl_compose_pruned / pwl_ops_tree keep contains_tol abstract (prelude/lp_oracle_spec.rs), units pwl_feasible / pwl_elim use the definition proved for `contains` (prelude/lp_oracle_tol_spec.rs): the contracts imported from pwl_feasible hold for every interpretation',
 ]
@@ -355,7 +356,8 @@ _WIT_TEXT = ('TREE LEVEL, PROVED for infeasible_elimination (unit pwl_elim, bina
              'then every witness cached in the RESULTING tree satisfies, up to 1e-8, every half-space on the path of its node IN THE RESULTING TREE (wit_inv(final, final)). Invariant: witnesses stored in the current arena are right for the paths of the ORIGINAL arena (wit_inv(a0, current)) and the current tree is the original one '
              'with decisions spliced out and subtrees removed (emb_inv: every current edge p --l--> k comes from the original edge leaving p under l whose target is k or an ancestor of k; hence current paths are sub-paths of original ones, same decisions and labels). '
              'Steps: phase_inh passes on only parent witnesses tolerated by the half-space of the incoming edge (parent path + that edge = node path, lemma_wit_step); phase_one / phase_two results are tolerated by the intersection of the half-spaces PolyhedraGen reports, i.e. (gen_inv w.r.t. the original arena) by the half-space of every edge of the original path (lemma_wit_path); '
-             'state writes, forward_if_redundant and the deferred removals keep the values of surviving nodes. Polytope::contains itself is PROVED in unit aff_algebra: true iff every un-normalised row b_i - m_i.x >= -1e-8. ')
+             'state writes, forward_if_redundant and the deferred removals keep the values of surviving nodes. Polytope::contains itself is PROVED in unit aff_algebra: true iff every un-normalised row b_i - m_i.x >= -1e-8. '
+             'INFEASIBLE MARKS (same contract, clauses blame_ok / region_covers, see C03): every Infeasible mark present after the run was present at entry or comes from an Infeasible LP answer for a polytope that EVERY input whose evaluation in the original tree passes the node satisfies - so the marked region is non-empty only if the LP answer is wrong (soundness of the LP solver: C10, not applicable). ')
 for pid, lvl in (('C11', 'other'), ('C05', 'other'), ('C03', 'other')):
     PROPS[pid]['units'] = ['pwl_feasible', 'pwl_elim'] + (['aff_algebra'] if pid == 'C05' else [])
     PROPS[pid]['level'] = lvl
